@@ -7,6 +7,7 @@ import (
 	"os"
 	"path"
 	"path/filepath"
+	"strconv"
 	"strings"
 	"sync"
 
@@ -200,14 +201,14 @@ func c15Run(v *c15Vec) (obs []callRec, herr string) {
 	set := jet.NewSet(&recLoader{mem, rec}, jet.WithCache(&recCache{m: map[string]*jet.Template{}, rec: rec}),
 		jet.WithTemplateNameExtensions(v.Exts), jet.DevelopmentMode(v.Dev))
 	ref := refDir(v.Depth) + "zref"
-	q := `"` + name + `"`
+	q := strconv.Quote(name)
 	var data interface{}
 	// history: the same spelling is first used by a referrer in another directory of the same Set (a name is
 	// resolved against the directory of the template that uses it, every time); skipped when both resolve to
 	// the same file, because the first use would then legitimately fill the cache
 	relEntry := v.Entry != "exec" && v.Entry != "includeIfExists" // those two resolve against the root, wherever they are used
 	prior := func(pre, spelling string) {
-		pq := `"` + spelling + `"`
+		pq := strconv.Quote(spelling)
 		var psrc string
 		switch v.Entry {
 		case "extends", "ParseExtends":
@@ -321,7 +322,7 @@ func c15Record(a []string) int {
 	defer f.Close()
 	enc := json.NewEncoder(f)
 	entries := []string{"GetTemplate", "extends", "import", "include", "includeData", "exec", "includeIfExists", "ParseExtends"}
-	segs := []string{"a", "b", ".", "..", "", "a", "b", ".."}
+	segs := []string{"a", "b", ".", "..", "", "a", "b", "..", `c\..\d`}
 	extLists := [][]string{{"", ".jet", ".html.jet", ".jet.html"}, {".jet"}, {".x", ""}, {""}}
 	for i := 0; i < n; i++ {
 		v := c15Vec{Entry: entries[rng.Intn(len(entries))], Abs: rng.Intn(3) == 0, Dev: rng.Intn(3) == 0, Exts: extLists[rng.Intn(len(extLists))]}
